@@ -94,6 +94,9 @@ def case_strategy(draw):
         # file source: every copy is written to the SAME path (replaced in place, same size, same modification
         # time) and is a different instance - what a sender sees when files are staged under a fixed name
         'reuse_path': draw(st.sampled_from([False, False, True])),
+        # the sending thread first tried to store an object that cannot be encoded (value out of range for its
+        # VR), got the error, and carries on: later stores are not affected by the failed one
+        'prior_failure': draw(st.sampled_from([False, False, True])),
     }
 
 
@@ -161,6 +164,16 @@ def run_case(case):
             remote = {'aet': 'SRV', 'address': '127.0.0.1', 'port': port}
 
             def body():
+                if case.get('prior_failure'):
+                    try:
+                        with client.request_association(remote) as assoc0:
+                            bad = build_ds(case['ds'])
+                            bad.PatientName = 'GHOST^PATIENT'
+                            bad.SOPInstanceUID = '1.2.826.0.1.3680043.9.15.666'
+                            bad.Rows = 70000
+                            assoc0.get_scu(sop)(bad, 99)
+                    except Exception:
+                        pass        # (the failure itself is the application's to handle)
                 with client.request_association(remote) as assoc:
                     service = assoc.get_scu(sop)
                     for k, ds in enumerate(sent):
@@ -256,6 +269,10 @@ FIXED = [
             'EncapsulatedDocument': {'len': 700, 'salt': 8}},
      'ts': 1, 'client_max': 4096, 'server_max': 4096, 'source': 'file', 'reception': 'directory',
      'outcome': ['status', 0], 'repeat': 3, 'align': None, 'reuse_path': True},
+    {'ds': {'SOPClassUID': svc.CT_STORAGE, 'SOPInstanceUID': '1.2.826.0.1.3680043.9.15.7', 'PatientName': 'After^Failure',
+            'PatientID': 'p7', 'EncapsulatedDocument': {'len': 500, 'salt': 4}},
+     'ts': 1, 'client_max': 16384, 'server_max': 16384, 'source': 'memory', 'reception': 'tempfile',
+     'outcome': ['status', 0], 'repeat': 2, 'align': None, 'prior_failure': True},
     # PDUs far larger than what one TCP read delivers on loopback
     {'ds': {'SOPClassUID': svc.CT_STORAGE, 'SOPInstanceUID': '1.2.826.0.1.3680043.9.15.4', 'PatientName': 'Big^Pdu',
             'EncapsulatedDocument': {'len': 1500001, 'salt': 5}},
@@ -288,7 +305,7 @@ def one(ctx, case, label):
         if again:
             return
     ctx.case(case, nfrag >= 2 or case['repeat'] > 1 or case.get('align') is not None,
-             labels=[label, 'ts=%d' % case['ts'], 'src=' + case['source'] + ('-same-path' if case.get('reuse_path') and case['source'] == 'file' and case['repeat'] > 1 else ''), 'recv=' + case['reception'], 'align=%s' % case.get('align'),
+             labels=[label, 'ts=%d' % case['ts']] + (['after-failed-store'] if case.get('prior_failure') else []) + [ 'src=' + case['source'] + ('-same-path' if case.get('reuse_path') and case['source'] == 'file' and case['repeat'] > 1 else ''), 'recv=' + case['reception'], 'align=%s' % case.get('align'),
                      'repeat=%d' % case['repeat'], 'multi-fragment' if nfrag >= 2 else 'small'],
              sample={k: (v if k != 'ds' else {kk: (vv if not isinstance(vv, list) else '<%d items>' % len(vv))
                                                 for kk, vv in v.items()}) for k, v in case.items()})
